@@ -188,6 +188,10 @@ def import_shape_rule(crate, prop, rule="C03.R3"):
         r.fail(prop, "anchor-missing import insertion", "no BTreeSet::insert / import_path call in generate_imports", gi.file(), gi.line())
         return r
     ok_any = False
+    # the insertions that record an import: those that can follow the computation of the specifier (a set filled before,
+    # e.g. to sort the dependencies first, is not what ends up in the file)
+    after_ip = gi.reachable_from([b for b, _ in ip])
+    ins = [(b, t) for b, t in ins if b in after_ip] or ins
     for blk in range(gi.n):
         term = gi.term(blk)
         if term["k"] != "switch" or gi.is_cleanup(blk):
